@@ -340,7 +340,7 @@ fn c09_oneof_int_empty() {
 
 /// Mixed-family list: one IPv4 CIDR, one explicit IPv6 range, one IPv4 address.
 #[kani::proof]
-#[kani::unwind(18)]
+#[kani::unwind(6)]
 #[kani::stub(crate::ast::index_expr::IndexExpr::compile_with, compile_with_stub)]
 #[kani::stub(rand::rngs::thread::rng, rng_stub)]
 fn c09_oneof_ip() {
@@ -396,53 +396,52 @@ fn c09_oneof_ip() {
 
 // ---------------------------------------------------------------- C11 ------
 
-#[kani::proof]
-#[kani::unwind(8)]
-#[kani::stub(crate::ast::index_expr::IndexExpr::compile_with, compile_with_stub)]
-#[kani::stub(rand::rngs::thread::rng, rng_stub)]
-fn c11_wildcard_arms() {
-    let s = mk_scheme(Type::Bytes, kani::any());
-    let strict: bool = kani::any();
-    let l: [u8; 4] = kani::any();
-    let llen: usize = kani::any();
-    kani::assume(llen <= 2);
-    unsafe {
-        LHS_KIND = 3;
-        LHS_BYTES = [0; 16];
-        LHS_BYTES[0] = l[0];
-        LHS_BYTES[1] = l[1];
-        LHS_BYTES[2] = l[2];
-        LHS_BYTES[3] = l[3];
-        LHS_BYTES_LEN = llen;
-    }
-    // pattern `a*`
-    let pat = || BytesExpr::new(vec![b'a', b'*'], BytesFormat::Quoted);
-    let op = if strict {
-        match Wildcard::<true>::new(pat(), usize::MAX) {
-            Ok(w) => ComparisonOpExpr::StrictWildcard(w),
-            Err(_) => {
-                kani::assume(false);
-                loop {}
+// The operator node is built with a CONCRETE variant per harness: a symbolic choice between
+// the two variants makes the tag an if-then-else and CBMC then explores every arm of the
+// compile function's match (ran to 10 GB).
+macro_rules! wildcard_arm_harness {
+    ($name:ident, $strict:expr, $variant:ident) => {
+        #[kani::proof]
+        #[kani::unwind(8)]
+        #[kani::stub(crate::ast::index_expr::IndexExpr::compile_with, compile_with_stub)]
+        #[kani::stub(rand::rngs::thread::rng, rng_stub)]
+        fn $name() {
+            let s = mk_scheme(Type::Bytes, kani::any());
+            let l: [u8; 4] = kani::any();
+            let llen: usize = kani::any();
+            kani::assume(llen <= 2);
+            unsafe {
+                LHS_KIND = 3;
+                LHS_BYTES = [0; 16];
+                LHS_BYTES[0] = l[0];
+                LHS_BYTES[1] = l[1];
+                LHS_BYTES[2] = l[2];
+                LHS_BYTES[3] = l[3];
+                LHS_BYTES_LEN = llen;
             }
-        }
-    } else {
-        match Wildcard::<false>::new(pat(), usize::MAX) {
-            Ok(w) => ComparisonOpExpr::Wildcard(w),
-            Err(_) => {
-                kani::assume(false);
-                loop {}
-            }
+            // pattern `a*`
+            let pat = BytesExpr::new(vec![b'a', b'*'], BytesFormat::Quoted);
+            let op = match Wildcard::<$strict>::new(pat, usize::MAX) {
+                Ok(w) => ComparisonOpExpr::$variant(w),
+                Err(_) => {
+                    kani::assume(false);
+                    loop {}
+                }
+            };
+            let (default, got) = run(field_expr(&s, op));
+            let want = llen >= 1 && (l[0] == b'a' || (!$strict && l[0] == b'A'));
+            assert!(got == want, "wildcard / strict wildcard arm does not match with its documented case rule");
+            assert!(!default, "absent value: wildcard must be false");
+            kani::cover!($strict || (got && l[0] == b'A'));
+            kani::cover!(!$strict || (!got && l[0] == b'A' && llen == 2));
+            kani::cover!(got && llen == 1);
+            std::mem::forget(s);
         }
     };
-    let (default, got) = run(field_expr(&s, op));
-    let want = llen >= 1 && (l[0] == b'a' || (!strict && l[0] == b'A'));
-    assert!(got == want, "wildcard / strict wildcard arm does not match with its documented case rule");
-    assert!(!default, "absent value: wildcard must be false");
-    kani::cover!(got && !strict && l[0] == b'A');
-    kani::cover!(!got && strict && l[0] == b'A' && llen == 2);
-    kani::cover!(got && strict && llen == 1);
-    std::mem::forget(s);
 }
+
+wildcard_arm_harness!(c11_wildcard_arm_ci, false, Wildcard);
+wildcard_arm_harness!(c11_wildcard_arm_strict, true, StrictWildcard);
 
 // ---------------------------------------------------------------- C17 ------
 
@@ -491,7 +490,7 @@ impl crate::list_matcher::ListDefinition for ProbeList {
 /// `x in $x.y`: the answer is exactly what the matcher installed for the
 /// list of x's type says, asked once with that name and x's value.
 #[kani::proof]
-#[kani::unwind(5)]
+#[kani::unwind(3)]
 #[kani::stub(crate::ast::index_expr::IndexExpr::compile_with, compile_with_stub)]
 #[kani::stub(rand::rngs::thread::rng, rng_stub)]
 fn c17_inlist_delegation() {
@@ -621,43 +620,60 @@ contains_dispatch_harness!(c10_contains_dispatch_n0, 0, 8);
 contains_dispatch_harness!(c10_contains_dispatch_n2, 2, 8);
 contains_dispatch_harness!(c10_contains_dispatch_n3, 3, 8);
 
-/// Length dispatch table of the SIMD path: for every pattern length 2..=16 the
-/// compiled comparator finds the pattern in itself and does not find it in a
-/// copy whose last byte differs (a pattern routed to a searcher of another
-/// size fails one of the two).
-#[kani::proof]
-#[kani::unwind(19)]
-#[kani::stub(crate::ast::index_expr::IndexExpr::compile_with, compile_with_stub)]
-#[kani::stub(rand::rngs::thread::rng, rng_stub)]
-fn c10_contains_dispatch_table() {
-    let s = mk_scheme(Type::Bytes, false);
-    let bytes: [u8; 16] = kani::any();
-    let flip: bool = kani::any();
-    let mut n = 2usize;
-    while n <= 16 {
-        unsafe {
-            LHS_KIND = 3;
-            LHS_BYTES = bytes;
-            if flip {
-                LHS_BYTES[n - 1] = bytes[n - 1] ^ 1;
+/// Length dispatch table of the SIMD path, one harness per pattern length
+/// 2..=16 (a loop over the lengths in one harness ran to 15 GB): the compiled
+/// comparator finds the pattern in itself and does not find it in a copy whose
+/// last byte differs (a pattern routed to a searcher of another size fails one
+/// of the two); the anchor is drawn inside 1..len.
+macro_rules! dispatch_len_harness {
+    ($name:ident, $n:expr, $unwind:expr) => {
+        #[kani::proof]
+        #[kani::unwind($unwind)]
+        #[kani::stub(crate::ast::index_expr::IndexExpr::compile_with, compile_with_stub)]
+        #[kani::stub(rand::rngs::thread::rng, rng_stub)]
+        fn $name() {
+            let s = mk_scheme(Type::Bytes, false);
+            let bytes: [u8; $n] = kani::any();
+            let flip: bool = kani::any();
+            unsafe {
+                LHS_KIND = 3;
+                LHS_BYTES = [0; 16];
+                let dst: &mut [u8; 16] = &mut *(&raw mut LHS_BYTES);
+                dst[..$n].copy_from_slice(&bytes);
+                if flip {
+                    LHS_BYTES[$n - 1] = bytes[$n - 1] ^ 1;
+                }
+                LHS_BYTES_LEN = $n;
+                AVX2 = true;
             }
-            LHS_BYTES_LEN = n;
-            AVX2 = true;
-            REC_CALLS = 0;
-            ANCHOR_CALLS = 0;
+            let pat = BytesExpr::new(bytes.to_vec(), BytesFormat::Quoted);
+            let (_, got) = run(field_expr(&s, ComparisonOpExpr::Contains(pat)));
+            assert!(got == !flip, "a pattern must be found in itself and not in a copy with a different last byte");
+            unsafe {
+                assert!(ANCHOR_CALLS == 1 && ANCHOR >= 1 && ANCHOR < $n, "anchor drawn outside 1..len");
+            }
+            kani::cover!(flip);
+            kani::cover!(!flip && bytes[$n - 1] == 0);
+            std::mem::forget(s);
         }
-        let pat = BytesExpr::new(bytes[..n].to_vec(), BytesFormat::Quoted);
-        let (_, got) = run(field_expr(&s, ComparisonOpExpr::Contains(pat)));
-        assert!(got == !flip, "a pattern must be found in itself and not in a copy with a different last byte (every length 2..=16)");
-        unsafe {
-            assert!(ANCHOR_CALLS == 1 && ANCHOR >= 1 && ANCHOR < n, "anchor drawn outside 1..len");
-        }
-        n += 1;
-    }
-    kani::cover!(flip);
-    kani::cover!(!flip);
-    std::mem::forget(s);
+    };
 }
+
+dispatch_len_harness!(c10_contains_len_02, 2, 3);
+dispatch_len_harness!(c10_contains_len_03, 3, 3);
+dispatch_len_harness!(c10_contains_len_04, 4, 3);
+dispatch_len_harness!(c10_contains_len_05, 5, 3);
+dispatch_len_harness!(c10_contains_len_06, 6, 3);
+dispatch_len_harness!(c10_contains_len_07, 7, 3);
+dispatch_len_harness!(c10_contains_len_08, 8, 3);
+dispatch_len_harness!(c10_contains_len_09, 9, 3);
+dispatch_len_harness!(c10_contains_len_10, 10, 3);
+dispatch_len_harness!(c10_contains_len_11, 11, 3);
+dispatch_len_harness!(c10_contains_len_12, 12, 3);
+dispatch_len_harness!(c10_contains_len_13, 13, 3);
+dispatch_len_harness!(c10_contains_len_14, 14, 3);
+dispatch_len_harness!(c10_contains_len_15, 15, 3);
+dispatch_len_harness!(c10_contains_len_16, 16, 3);
 
 // ------------------------------------------------------- C09 (byte strings) -
 
@@ -692,5 +708,73 @@ fn c09_oneof_bytes() {
     kani::cover!(got && plen == 1 && i2[0] < i1[0]);
     kani::cover!(got && plen == 2);
     kani::cover!(!got && plen == 0);
+    std::mem::forget(s);
+}
+
+/// One-item list holding an IPv4 CIDR, probe of either family - in particular
+/// IPv4-mapped IPv6 probes, which are IPv6 and must not match an IPv4 block.
+#[kani::proof]
+#[kani::unwind(6)]
+#[kani::stub(crate::ast::index_expr::IndexExpr::compile_with, compile_with_stub)]
+#[kani::stub(rand::rngs::thread::rng, rng_stub)]
+fn c09_oneof_ip_v4_item() {
+    let s = mk_scheme(Type::Ip, kani::any());
+    let x4: bool = kani::any();
+    let xb: u128 = kani::any();
+    kani::assume(!x4 || xb <= u32::MAX as u128);
+    let a: u32 = kani::any();
+    let len: u8 = kani::any();
+    kani::assume(len <= 32);
+    let mask: u32 = if len == 0 { 0 } else { u32::MAX << (32 - len as u32) };
+    kani::assume(a & !mask == 0);
+    let item = match cidr::Ipv4Cidr::new(Ipv4Addr::from(a), len) {
+        Ok(c) => IpRange::Cidr(IpCidr::V4(c)),
+        Err(_) => {
+            kani::assume(false);
+            loop {}
+        }
+    };
+    unsafe {
+        LHS_KIND = 2;
+        LHS_IP_V4 = x4;
+        LHS_IP_BITS = xb;
+    }
+    let (default, got) = run(field_expr(&s, ComparisonOpExpr::OneOf(RhsValues::Ip(vec![item]))));
+    let want = x4 && ((xb as u32) & mask) == a;
+    assert!(got == want, "`ip in {{..}}` differs from membership in a listed item of the same family");
+    assert!(!default, "absent x: `in` must be false");
+    kani::cover!(!got && !x4 && (xb >> 32) == 0xffff && ((xb as u32) & mask) == a);
+    kani::cover!(got && len == 0);
+    kani::cover!(got && len == 32);
+    kani::cover!(!got && x4);
+    std::mem::forget(s);
+}
+
+/// One-item list holding an explicit IPv6 range, probe of either family.
+#[kani::proof]
+#[kani::unwind(5)]
+#[kani::stub(crate::ast::index_expr::IndexExpr::compile_with, compile_with_stub)]
+#[kani::stub(rand::rngs::thread::rng, rng_stub)]
+fn c09_oneof_ip_v6_item() {
+    let s = mk_scheme(Type::Ip, kani::any());
+    let x4: bool = kani::any();
+    let xb: u128 = kani::any();
+    kani::assume(!x4 || xb <= u32::MAX as u128);
+    let lo: u128 = kani::any();
+    let hi: u128 = kani::any();
+    kani::assume(lo <= hi);
+    let item = IpRange::Explicit(ExplicitIpRange::V6(Ipv6Addr::from(lo)..=Ipv6Addr::from(hi)));
+    unsafe {
+        LHS_KIND = 2;
+        LHS_IP_V4 = x4;
+        LHS_IP_BITS = xb;
+    }
+    let (default, got) = run(field_expr(&s, ComparisonOpExpr::OneOf(RhsValues::Ip(vec![item]))));
+    let want = !x4 && lo <= xb && xb <= hi;
+    assert!(got == want, "`ip in {{..}}` differs from membership in a listed item of the same family");
+    assert!(!default, "absent x: `in` must be false");
+    kani::cover!(got);
+    kani::cover!(!got && x4 && lo == 0);
+    kani::cover!(!got && !x4);
     std::mem::forget(s);
 }
